@@ -1,5 +1,5 @@
 /-
-  F16 — the DHCPv4 lease-file logic and handler construction of handlers/dhcp4_spoofer (`newSubnet`, `configChanged`,
+  F19 — the DHCPv4 lease-file logic and handler construction of handlers/dhcp4_spoofer (`newSubnet`, `configChanged`,
   `loadConfig`, `loadByteArray`, `saveConfig`, `Config.New`), REGENERATED from the Go bodies on every run
   (tools/goextract/dhcpfile.go → Gen/DhcpFileGen.lean, over the vocabulary of Model/DhcpFileGo.lean), are the functions of
   Model/Dhcp4File.lean (and through `Model/Dhcp4Restart` the construction part of Model/Dhcp4Srv) that C18, C11 and C12
